@@ -182,7 +182,11 @@ class RandomProxy:
         return None
 
 
-_PATCHED = ("randint", "randrange", "choice", "sample", "shuffle", "random", "uniform", "seed")
+    def getrandbits(self, k):
+        return self.ch.choose(2 ** min(k, 3), f"getrandbits({k})")
+
+
+_PATCHED = ("randint", "randrange", "choice", "sample", "shuffle", "random", "uniform", "seed", "getrandbits")
 
 
 @contextlib.contextmanager
@@ -190,10 +194,15 @@ def owned_random(chooser: Chooser):
     """Every ``random.<f>()`` call anywhere becomes a choice point."""
     proxy = RandomProxy(chooser)
     saved = {n: getattr(_random_module, n) for n in _PATCHED}
+    saved_cls = _random_module.Random
     try:
         for n in _PATCHED:
             setattr(_random_module, n, getattr(proxy, n))
+        # a private generator object (random.Random(seed)) created while the
+        # source is owned draws from the same chooser
+        _random_module.Random = lambda *a, **k: proxy
         yield proxy
     finally:
         for n, f in saved.items():
             setattr(_random_module, n, f)
+        _random_module.Random = saved_cls
